@@ -37,6 +37,7 @@ type Engine struct {
 	closureBindings map[*ssa.MakeClosure][]ssa.Value
 	usedContracts   map[string]bool
 	typesPkgs   map[string]*types.Package
+	elemMutable map[*ssa.Global]bool
 }
 
 func LoadEngine(repo string, verifDir string) (*Engine, error) {
@@ -248,7 +249,8 @@ func (eng *Engine) globalID(g *ssa.Global) int {
 // analyseGlobals: a package-level variable is "const" when every use outside
 // package initialisers (and the allow-listed testing hook) is a plain load.
 var globalWriteAllow = map[string]bool{
-	"github.com/pegnet/pegnetd/config.SetAllActivations": true,
+	"github.com/pegnet/pegnetd/config.SetAllActivations": true, // --testing
+	"github.com/pegnet/pegnetd/cmd.always":                true, // --testingact (runs before any command)
 }
 
 func (eng *Engine) analyseGlobals() {
@@ -295,6 +297,38 @@ func (eng *Engine) analyseGlobals() {
 		for _, m := range p.Members {
 			if gl, ok := m.(*ssa.Global); ok && !written[gl] {
 				eng.constGlobal[gl] = true
+			}
+		}
+	}
+	// elements of a global slice written through a loaded copy (x := G; x[i].f = v)
+	eng.elemMutable = map[*ssa.Global]bool{}
+	var rootGlobal func(v ssa.Value) *ssa.Global
+	rootGlobal = func(v ssa.Value) *ssa.Global {
+		switch x := v.(type) {
+		case *ssa.FieldAddr:
+			return rootGlobal(x.X)
+		case *ssa.IndexAddr:
+			return rootGlobal(x.X)
+		case *ssa.UnOp:
+			if x.Op == token.MUL {
+				if gl, ok := x.X.(*ssa.Global); ok {
+					return gl
+				}
+			}
+		}
+		return nil
+	}
+	for f := range eng.allFns {
+		if f.Name() == "init" || f.Synthetic == "package initializer" {
+			continue
+		}
+		for _, b := range f.Blocks {
+			for _, ins := range b.Instrs {
+				if st, ok := ins.(*ssa.Store); ok {
+					if gl := rootGlobal(st.Addr); gl != nil {
+						eng.elemMutable[gl] = true
+					}
+				}
 			}
 		}
 	}
@@ -385,11 +419,33 @@ func (eng *Engine) constGlobalTerm(g *Gen, gl *ssa.Global) string {
 			g.sc.errConsts = append(g.sc.errConsts, name)
 		}
 	}
+	if _, isSlice := et.Underlying().(*types.Slice); isSlice && !eng.elemMutable[gl] {
+		eng.sliceInitFacts(g, gl, name)
+	}
 	g.assumptions["global "+gl.Pkg.Pkg.Path()+"."+gl.Name()+" is never reassigned after package initialisation (checked by SSA scan; testing hook config.SetAllActivations excluded)"] = true
 	return name
 }
 
-func (eng *Engine) emitGlobalAxioms(g *Gen) {}
+// emitGlobalAxioms: assumed ground facts (axiom lines of the contract files), evaluated on the entry state.
+func (eng *Engine) emitGlobalAxioms(g *Gen) {
+	for _, ax := range eng.db.Axioms {
+		if len(ax.Params) != 0 {
+			continue
+		}
+		if g.fn != nil && g.fn.Package() != nil && g.fn.Package().Pkg.Path() != ax.Pkg {
+			continue // axioms speak about the package-level data of their own package
+		}
+		env := &Env{g: g, sc: g.sc, eng: eng, st: g.entry, old: g.entry, vars: map[string]tv{}, pkg: eng.typesPkg(ax.Pkg)}
+		n := len(g.sc.lines)
+		t, err := env.formula(ax.Body)
+		if err != nil {
+			g.sc.lines = g.sc.lines[:n]
+			continue
+		}
+		g.sc.emit("(assert %s)", t)
+		g.assumptions["axiom "+strings.TrimPrefix(ax.Name, "axiom:")+": "+ax.Text+" (ground fact, checked against the real library by /verif/conformance)"] = true
+	}
+}
 
 // initValue implements initval(pkg.X)
 func (eng *Engine) initValue(e *Env, s *ESel) (tv, error) {
@@ -512,4 +568,77 @@ func (eng *Engine) locationTags(g *Gen, ct *Contract, c *ssa.CallCommon, loc str
 // FindFunction by contract key.
 func (eng *Engine) FindFunction(key string) *ssa.Function {
 	return eng.fnByKey[key]
+}
+
+// sliceInitFacts: for a never-reassigned package-level slice initialised with a composite literal of constants,
+// state length and element fields (entry heap). The elements are assumed not to be written through the slice
+// (no IndexAddr store on a value loaded from this global exists outside tests: checked by the same SSA scan).
+func (eng *Engine) sliceInitFacts(g *Gen, gl *ssa.Global, name string) {
+	sl, ok := eng.globalInit[gl].(*ssa.Slice)
+	if !ok {
+		return
+	}
+	arr, ok := sl.X.(*ssa.Alloc)
+	if !ok || sl.Low != nil || sl.High != nil {
+		return
+	}
+	at, ok := arr.Type().Underlying().(*types.Pointer).Elem().Underlying().(*types.Array)
+	if !ok {
+		return
+	}
+	g.sc.emit("(assert (and (= (slen %s) %d) (= (soff %s) 0) (not (= (sarr %s) null))))", name, at.Len(), name, name)
+	fn := arr.Parent()
+	for _, b := range fn.Blocks {
+		for _, ins := range b.Instrs {
+			st, ok := ins.(*ssa.Store)
+			if !ok {
+				continue
+			}
+			c, isConst := st.Val.(*ssa.Const)
+			if !isConst {
+				continue
+			}
+			var idx int64 = -1
+			field := -1
+			var structT types.Type
+			switch a := st.Addr.(type) {
+			case *ssa.FieldAddr:
+				ia, ok := a.X.(*ssa.IndexAddr)
+				if !ok || ia.X != arr {
+					continue
+				}
+				ic, ok := ia.Index.(*ssa.Const)
+				if !ok {
+					continue
+				}
+				idx = ic.Int64()
+				field = a.Field
+				structT = at.Elem()
+			case *ssa.IndexAddr:
+				if a.X != arr {
+					continue
+				}
+				ic, ok := a.Index.(*ssa.Const)
+				if !ok {
+					continue
+				}
+				idx = ic.Int64()
+			default:
+				continue
+			}
+			val := g.constTerm(c)
+			if field >= 0 {
+				tag := g.fieldTag(structT, field)
+				if _, isS := c.Type().Underlying().(*types.Struct); isS {
+					continue
+				}
+				g.sc.emit("(assert (= (select %s (fld (sidx %s %d) %d)) %s))", g.sc.tagDefault(tag, 0), name, idx, field, val)
+			} else {
+				tag := g.cellTag(c.Type())
+				g.sc.emit("(assert (= (select %s (sidx %s %d)) %s))", g.sc.tagDefault(tag, 0), name, idx, val)
+			}
+		}
+	}
+	// zero-valued fields of a composite literal are not stored explicitly: the backing array starts zeroed
+	g.assumptions["elements of "+gl.Pkg.Pkg.Path()+"."+gl.Name()+" keep their initial values (composite literal in the package initialiser)"] = true
 }
